@@ -177,6 +177,23 @@ impl RndGen {
             }
         }
 
+        // deep-queue prologue (1.5% of the histories): several hundred small orders at two adjacent non-crossing
+        // prices, one clock tick apart, so that single levels hold more than 256 orders before the random part starts
+        if rng.chance(0.015) && !band.mirror && band.center_k > 2 && band.center_k + 2 < max_k {
+            let n_build = rng.range(270, 640);
+            let side_bias = rng.below(3); // 0 both sides, 1 bids only, 2 asks only
+            for i in 0..n_build {
+                let bid = match side_bias { 1 => true, 2 => false, _ => i % 2 == 0 };
+                let k = if bid { band.center_k - 1 } else { band.center_k + 1 };
+                let a = Op::Advance(1);
+                model_apply(&mut m, &a);
+                ops.push(a);
+                let op = Op::CreatePlace { bid, vol: rng.range(1, 4) as u32, trader: rng.below(50) as u32, price: Some((k * tick as u64) as u32) };
+                model_apply(&mut m, &op);
+                ops.push(op);
+            }
+        }
+        let n_ops = n_ops + ops.len();
         while ops.len() < n_ops {
             if rng.chance(0.01) {
                 // drift the band
